@@ -19,7 +19,6 @@ import (
 	"sort"
 	"strings"
 	"sync"
-	"runtime"
 	"testing"
 	"time"
 
@@ -91,6 +90,14 @@ func (m *mon) withSlot(f func(slot string)) {
 // record notes a collision under its key, keeping the smallest witness.
 func (m *mon) record(key string, a, b ht.Tree, algoName, hash string, idx int, src string) {
 	size := a.Size() + b.Size()
+	if strings.HasPrefix(key, "entry-") {
+		// a renamed or moved *empty* file is a weaker witness (empty files also collide with nothing at all)
+		for _, e := range a {
+			if e.K == ht.File && e.Len() == 0 {
+				size += 100
+			}
+		}
+	}
 	m.mu.Lock()
 	defer m.mu.Unlock()
 	f := m.best[key]
@@ -266,6 +273,19 @@ func contentClass(a, b ht.Ent) string {
 	return "file-content"
 }
 
+// concat is the concatenation of all file contents in walk order; a large file is one opaque token.
+func concat(t ht.Tree) string {
+	var sb strings.Builder
+	for _, p := range t.WalkOrder() {
+		if e := t[p]; e.K == ht.File && e.Big == nil {
+			sb.WriteString(e.D)
+		} else if e.K == ht.File {
+			fmt.Fprintf(&sb, "\x00<%d/%d/%d>\x00", e.Big.Size, e.Big.Seed, e.Big.Flip)
+		}
+	}
+	return sb.String()
+}
+
 // classify names the kind of difference between two different trees. Elementary differences get
 // one of a fixed set of names; anything else is "compound/<sorted set of the parts>".
 func classify(a, b ht.Tree) string {
@@ -352,24 +372,15 @@ func classify(a, b ht.Tree) string {
 			}
 		}
 	}
-	// several files changed but the concatenation in walk order is the same
+	// several files changed but the concatenation in walk order is the same (large files count as opaque tokens)
 	allFiles := true
 	for _, it := range items {
-		if !(it.inA && it.inB && strings.HasPrefix(it.class, "file-content")) || a[it.path].Big != nil || b[it.path].Big != nil {
+		if !(it.inA && it.inB && strings.HasPrefix(it.class, "file-content")) {
 			allFiles = false
 		}
 	}
-	if allFiles {
-		var ca, cb strings.Builder
-		for _, p := range a.WalkOrder() {
-			if a[p].K == ht.File && a[p].Big == nil {
-				ca.WriteString(a[p].D)
-				cb.WriteString(b[p].D)
-			}
-		}
-		if ca.String() == cb.String() {
-			return "content-boundary"
-		}
+	if allFiles && concat(a) == concat(b) {
+		return "content-boundary"
 	}
 	// two files exchanged their contents (and the concatenation changed)
 	if len(items) == 2 {
@@ -696,18 +707,10 @@ func dbg(what string) {
 }
 
 func TestC09(t *testing.T) {
-	if d := os.Getenv("VERIF_DEBUG_DUMP"); d != "" {
-		go func() {
-			n, _ := time.ParseDuration(d)
-			time.Sleep(n)
-			buf := make([]byte, 1<<20)
-			fmt.Printf("%s\n", buf[:runtime.Stack(buf, true)])
-		}()
-	}
 	iplib.Quiet()
 	r := lib.Start("C09")
 	defer lib.End(t, r)
-	r.Rule = "exhaustive: every tree with a file, relative symlink or directory as the hashed path, <=N entries below it (N=3 quick, 4 thorough), depth <=2, <=3 entries per directory, names {a,ab,b}, contents {'',a,b,ab}, targets {a,b,../a}; all unordered pairs compared through a hash->tree multimap. near-duplicates: seeded hostile trees (1-25 entries, depth <=4, large files up to 4 MiB) paired with a copy that differs by one elementary difference (15 kinds). A case is distinct by the canonical listing(s); non-trivial = the hashed path is a directory with at least one entry (exhaustive) / the two listings differ (pairs)"
+	r.Rule = "exhaustive: every tree with a file, relative symlink or directory as the hashed path, <=N entries below it (N=3 quick, 4 thorough), depth <=2, <=3 entries per directory, names {a,ab,b}, contents {'',a,b,ab}, targets {a,b,../a}; all unordered pairs compared through a hash->tree multimap. near-duplicates: seeded hostile trees (1-25 entries, depth <=4, large files up to 4 MiB) paired with a copy that differs by one elementary difference (15 kinds); bigfiles: one file of 1 KB-4 MiB with one byte changed at a buffer/size boundary. A case is distinct by the canonical listing(s); non-trivial = the hashed path is a directory with at least one entry (exhaustive) / the two listings differ (pairs)"
 	r.Assumes = []string{
 		"the in-memory tree model is materialised faithfully by the harness (os.Mkdir/WriteFile/Symlink), so listing equality is decided on the model",
 		"fs.NewPathHasher(root,false,..).Hash(path,false,false,false) with cwd = root is how Please hashes sources and outputs when xattrs are off",
@@ -799,7 +802,7 @@ func TestC09(t *testing.T) {
 
 	dbg("exhaustive pairs classified")
 	// ---- near-duplicate pairs ----
-	r.ForEach("neardup", r.Pick(3000, 400000), 8, func(i int, rng *rand.Rand) {
+	r.ForEach("neardup", r.Pick(8000, 400000), 8, func(i int, rng *rand.Rand) {
 		var a, b ht.Tree
 		if rng.Intn(10) == 0 {
 			a, b = randRootPair(rng)
@@ -841,6 +844,35 @@ func TestC09(t *testing.T) {
 		})
 	})
 	dbg("near-duplicates done")
+	// ---- large files: a truncated, size-limited or sampled read must show up ----
+	r.ForEach("bigfiles", r.Pick(400, 20000), 8, func(i int, rng *rand.Rand) {
+		size := ht.BigSizes[rng.Intn(len(ht.BigSizes))]
+		if rng.Intn(4) == 0 {
+			size = 1<<20 + 1 + rng.Intn(3<<20)
+		}
+		offs := []int{0, size - 1, size / 2, 4095, 4096, 32767, 32768, 65535, 65536, 1 << 20, 1<<20 + 1, rng.Intn(size)}
+		o := offs[rng.Intn(len(offs))]
+		if o >= size {
+			o = size - 1
+		}
+		seed := rng.Int63n(1 << 30)
+		fa := ht.Ent{K: ht.File, Big: &ht.Big{Size: size, Seed: seed, Flip: -1}}
+		fb := ht.Ent{K: ht.File, Big: &ht.Big{Size: size, Seed: seed, Flip: o}}
+		var a, b ht.Tree
+		if rng.Intn(3) == 0 {
+			a, b = ht.Tree{".": fa}, ht.Tree{".": fb}
+		} else {
+			a = ht.RandDirTree(rng, rng.Intn(4), 2, 0)
+			d := pick(rng, a.Dirs())
+			nm := a.FreeName(rng, d)
+			b = a.Clone()
+			a[ht.Join(d, nm)], b[ht.Join(d, nm)] = fa, fb
+		}
+		r.Case(a.Canon()+"|"+b.Canon(), true)
+		r.ObsDistinct("big_file_sizes", fmt.Sprint(size))
+		m.withSlot(func(slot string) { m.checkPair(slot, a, b, i, "bigfiles") })
+	})
+	dbg("big files done")
 	r.RequireObserved("trees_hashed", "pairs_compared")
 	m.report()
 }
